@@ -418,19 +418,19 @@ def plan(tier):
     # (a batch publish on top of earlier items makes std::deque grow at the front inside the injected operation: those queries do not terminate within 15 min and are left out)
     conc = [[m, cfg, n0, b, k] for m in (0, 1, 2) for cfg in (0, 1, 2) for n0 in (0, 1, 2) for b in (0, 1, 2, 3) for k in (0, 1, 2, 3) if not (b == 1 and n0 > 0)]
     if tier == 'quick':
-        conc = [v for v in conc if (v[0] == 0 and v[1] != 1) or (v[0] == 0 and v[2] == 1) or (v[0] != 0 and (v[1] + v[2] + v[3]) % 3 == 1)]
+        conc = [v for v in conc if (v[0] == 0 and v[1] != 1 and v[2] <= 1) or (v[0] == 0 and v[1] == 1 and v[2] == 1 and v[4] in (1, 2)) or (v[0] != 0 and (v[1] + v[2] + v[3] + v[4]) % 6 == 1)]
     units.append(dict(engine='e1', name='pub_conc', tu='C16conc.cpp', entry='h_pub_conc', unwind=12, vectors=conc, timeout=900,
                       concrete=[([0, 0, 1, 0, 1], list(range(1, 9))), ([0, 1, 2, 2, 1], list(range(1, 9))), ([2, 2, 0, 1, 3], list(range(1, 9)))],
-                      space='mode x configuration {unlimited,(1,1),(2,1)} x caught-up subscriber after 0..2 consumed values x awaited next() with a publisher-thread operation '
+                      space=('QUICK TIER SLICE (all_values: unlimited and (2,1) with 0..1 consumed values in full, (1,1) with one consumed value and k = 2..3; skipping modes: every sixth combination) of: ' if tier == 'quick' else '') + 'mode x configuration {unlimited,(1,1),(2,1)} x caught-up subscriber after 0..2 consumed values x awaited next() with a publisher-thread operation '
                             '{publish, publish batch (only on an empty stream), close, kick} injected in front of its k-th mutex acquisition (k = 1..4; beyond the last = after it parked), then two more polls',
                       data='published values symbolic 64-bit, pairwise distinct', bounds='one subscriber operation overlapped by one publisher operation, interleaved at lock-region granularity',
                       outside='three or more overlapping operations; pre-emption inside a critical section', cbmc_extra=('--max-field-sensitivity-array-size', '1024')))
     ahead = [[m, cfg, n0, b, k] for m in (0, 1, 2) for cfg in (0, 1, 2) for n0 in (0, 1) for b in (0, 2, 3) for k in (0, 1, 2)]
     if tier == 'quick':
-        ahead = [v for v in ahead if v[0] == 0 or (v[1] + v[2] + v[3] + v[4]) % 3 == 1]
+        ahead = [v for v in ahead if (v[0] == 0 and (v[1] != 1 or v[4] == 1)) or (v[0] != 0 and (v[1] + v[2] + v[3] + v[4]) % 6 == 1)]
     units.append(dict(engine='e1', name='pub_conc_ahead', tu='C16conc.cpp', entry='h_pub_conc_ahead', unwind=12, vectors=ahead, timeout=900,
                       concrete=[([0, 0, 1, 0, 1], list(range(1, 9))), ([0, 1, 0, 2, 1], list(range(1, 9))), ([2, 2, 1, 3, 0], list(range(1, 9)))],
-                      space='as pub_conc, but one published value is still unread when next() is awaited (await_ready() moves the subscriber onto it, await_resume() fetches it): mode x configuration x 0..1 consumed values x '
+                      space=('QUICK TIER SLICE (all_values: unlimited and (2,1) in full, (1,1) with k = 2; skipping modes: every sixth combination) of: ' if tier == 'quick' else '') + 'as pub_conc, but one published value is still unread when next() is awaited (await_ready() moves the subscriber onto it, await_resume() fetches it): mode x configuration x 0..1 consumed values x '
                             'publisher-thread operation {publish, close, kick} in front of the k-th mutex acquisition of that next() (k = 1..3), then two more polls',
                       data='published values symbolic 64-bit, pairwise distinct', bounds='one subscriber operation overlapped by one publisher operation, interleaved at lock-region granularity',
                       outside='batch publish onto a non-empty stream (std::deque growth at the front does not terminate in the encoding)', cbmc_extra=('--max-field-sensitivity-array-size', '1024')))
